@@ -8,6 +8,8 @@ CONSTANTS TlsPools, TlsThreads, TlsVals, NOf, Binds
 VARIABLE os
 NOfQ == (0 :> 2) @@ (1 :> 1)
 NOfB == (0 :> 0) @@ (1 :> 2)        \* 0 = as many workers as cpus (2)
+NOfS == (0 :> 0)
+NOf3 == (0 :> 1) @@ (1 :> 1) @@ (2 :> 2)
 Init == os = Obj0
 ACreate(p) == /\ ~Alive(os, p) /\ \E b \in Binds : os' = Create(os, p, NOf[p], b, 2, "TP")
 AStep(p, t) == /\ Alive(os, p) /\ t \in Workers(os, p)
